@@ -76,7 +76,10 @@ def make_symbolic(I, sh, name):
         t = I.fresh_seq(name)
         if 'len' in kw:
             I.assume(z3.Length(t) == kw['len'])
-        return SSeq(t, kw.get('cls', bytes))
+        v = SSeq(t, kw.get('cls', bytes))
+        if kw.get('attrs'):
+            v.attrs = {an: make_symbolic(I, ash, '%s_%s' % (name, an)) for an, ash in kw['attrs'].items()}
+        return v
     if k == 'str':
         return SSeq(I.fresh_seq(name), str)
     if k == 'bytearray':
